@@ -287,7 +287,8 @@ fn transpose<B: StarkField, const N: usize>(mut segments: Vec<Segment<B, N>>) ->
 
     // determine number of batches in which transposition will be preformed; if `concurrent`
     // feature is not enabled, the number of batches will always be 1
-    let num_batches = get_num_batches(result_len);
+    // (never more batches than rows: both are powers of two, so every batch gets at least one row)
+    let num_batches = core::cmp::min(get_num_batches(result_len), num_rows);
     let rows_per_batch = num_rows / num_batches;
 
     // define a closure for transposing a given batch
